@@ -1,5 +1,5 @@
 //! C08 - unregistered users are indistinguishable from registered ones.
-//! LTS: histories over {FakeAttempt(cid in 2, request in 2), RealLogin(A)} on one server tape, depth 4 (quick) /
+//! LTS: histories over {FakeAttempt(cid in 3 incl. empty, request in 2), RealLogin(A)} on one server tape, depth 4 (quick) /
 //! 5 (thorough), x 2 identity/context settings.  Invariant in every state, for the newest fake attempt:
 //! (1) same length as a real response, decodes; (2) its evaluation element equals the one produced for the same
 //! (seed, cid, request) with a record, at registration, and by the reference model; (3) against every earlier
@@ -18,7 +18,7 @@ use crate::tape::Tape;
 use serde_json::{json, Value};
 use std::time::Instant;
 
-const CIDS: [&[u8]; 2] = [b"nobody", b"alice"];
+const CIDS: [&[u8]; 3] = [b"nobody", b"alice", b""];
 
 #[derive(Clone, Debug, PartialEq)]
 enum Act {
@@ -79,7 +79,7 @@ impl Lts for World {
             return vec![];
         }
         let mut v = vec![];
-        for cid in 0..2 {
+        for cid in 0..CIDS.len() {
             for req in 0..2 {
                 v.push(Act::Fake { cid, req });
             }
@@ -169,6 +169,19 @@ impl Lts for World {
                 cx.violate("evaluation/not-deterministic", "the evaluation for the same (seed, cid, request) changes between attempts".into());
             }
         }
+        // the pending fake server state must be as fresh as a real one: no third of it (MAC key, transcript hash,
+        // session key) repeats across attempts or is constant
+        let nh3 = sp.nh();
+        for prev in &s.attempts[..s.attempts.len() - 1] {
+            for (i, nm) in ["client MAC key", "transcript hash", "session key"].iter().enumerate() {
+                if cur.st.len() == 3 * nh3 && prev.st.len() == 3 * nh3 && cur.st[i * nh3..(i + 1) * nh3] == prev.st[i * nh3..(i + 1) * nh3] {
+                    cx.violate(&format!("fake-state/repeats/{}", nm), format!("the {} of the fake server state repeats across attempts", nm));
+                }
+            }
+        }
+        if cur.st.iter().all(|b| *b == cur.st[0]) {
+            cx.violate("fake-state/constant", "the fake server state is a constant byte string".into());
+        }
         // identify the masking key
         let masked = sp.field(Kind::CredResp, "masked_response").of(&cur.ke2).to_vec();
         let mn = sp.field(Kind::CredResp, "masking_nonce").of(&cur.ke2).to_vec();
@@ -234,6 +247,10 @@ fn world(api: &Api, setting_ix: usize, depth: usize, seed: u64) -> Result<World,
     let nh = sp.nh();
     let mut fin_menu = vec![vec![0u8; nh], vec![0xffu8; nh], honest.ke3.clone(), honest.sk_server.clone()];
     fin_menu.push(honest.ke2[honest.ke2.len() - nh..].to_vec());
+    // tags an outsider can compute from public constants
+    for (k, m) in [(vec![0u8; nh], vec![0u8; nh]), (vec![0u8; nh], vec![]), (vec![0xffu8; nh], vec![0xffu8; nh])] {
+        fin_menu.push(crate::refmodel::hmac(sp.h(), &k, &[&m]));
+    }
     let _ = NN;
     Ok(World { api: *api, seed_bytes: sp.field(Kind::Setup, "oprf_seed").of(&setup).to_vec(), p, setup, spk, file: reg.file, reqs: vec![r0, r1], real_ke2_len: honest.ke2.len(), wrong_pw_err, fin_menu, max_depth: depth, seed })
 }
@@ -274,7 +291,7 @@ pub fn run(tier: Tier, seed: u64) -> i32 {
             }
             let st = explore::bfs(&w, cx, 1_000_000);
             models.lock().unwrap().push(json!({"suite": api.name(), "setting": s, "depth": w.max_depth, "states": st.states, "edges": st.edges, "terminals": st.terminals}));
-            cx.sample(json!({"suite": api.name(), "setting": w.p.describe(), "depth": w.max_depth, "actions": ["fake(nobody,req0)", "fake(nobody,req1)", "fake(alice,req0)", "fake(alice,req1)", "real_login"]}));
+            cx.sample(json!({"suite": api.name(), "setting": w.p.describe(), "depth": w.max_depth, "actions": ["fake(cid in {nobody, alice, empty}, request in 2)", "real_login"]}));
         }
         Err(e) => cx.violate_case("honest-step/error", e, json!({})),
     }));
